@@ -59,7 +59,7 @@ GATE = {
     40: "PANIC_BEFORE_FREE_TLS", 41: "PANIC_BEFORE_CAS", 42: "PANIC_BEFORE_RESET_TID",
     43: "PANIC_BEFORE_FREE_BLOCK", 44: "PANIC_BEFORE_UNMAP_EXIT",
 }
-JOIN_OPS = ("j", "J", "w")  # join at once / after the thread is gone / while the thread still sleeps
+JOIN_OPS = ("j", "J", "w", "s")  # join at once / after the thread is gone / while the thread still sleeps (1.5 ms, 300 ms)
 KGATE = 99  # model-only step: kernel exit of the thread (clear-tid write + wake)
 
 # ======================================================================================
@@ -573,7 +573,8 @@ def run_probe(binp, argv, strace=False, inject=None, timeout=20.0):
 def parse_report(text):
     r = dict(mode=None, main_tid=0, base=None, end=None, maps0=[], maps1=[], spawn={}, join={}, drop=[], runs={}, alive=None,
              blocks={}, tids={}, gt=[], log=[], poison=None, poisonbad=[], live=[], counters=None, stuck=None, done=False,
-             aborted=False, fp=[], hist=None, concurrent=None, settle_timeouts=0, prejoin_live=None, joining=[], usage=False)
+             aborted=False, fp=[], hist=None, concurrent=None, settle_timeouts=0, prejoin_live=None, joining=[], usage=False,
+             early=[], early_total=0)
 
     def snap(w):
         return dict(maps=int(w[2]), vm=int(w[4]), tasks=int(w[6]), live_n=int(w[8]), live_bytes=int(w[9]), live_hash=int(w[10], 16))
@@ -640,6 +641,10 @@ def parse_report(text):
                 r["prejoin_live"] = (int(w[1]), int(w[2]))
             elif k == "joining":
                 r["joining"].append(int(w[1]))
+            elif k == "early":
+                r["early"].append((int(w[1]), int(w[2]), int(w[3], 16)))
+            elif k == "early_total":
+                r["early_total"] = int(w[1])
             elif k == "usage-error":
                 r["usage"] = True
         except (ValueError, IndexError):
@@ -909,6 +914,16 @@ def value_checks(v, rep, specs, preds, tag_of=lambda o: o):
                 v.add("C05:join:returned-before-thread-finished", "thread %d: when join returned the closure body had run %d times" % (o, j["runs"]))
             elif j["effect"] != effect_val(tag_of(o)):
                 v.add("C05:join:effect-not-visible", "thread %d: the closure's plain write was not visible right after join returned" % o)
+    for o, g, word in rep["early"]:
+        if g == 11:
+            v.add("C05:join:returned-before-thread-finished",
+                  "thread %d: join's wait on the exit word was over (JOIN_BEFORE_READ_RESULT reached) while the word still read %#x - the kernel had not "
+                  "reported the thread's exit, the thread could still be running" % (o, word))
+        else:
+            v.add("C05:drop:wait-returned-before-thread-finished",
+                  "thread %d: the handle drop's wait on the exit word was over (DROP_BEFORE_FREE_BLOCK reached) while the word still read %#x" % (o, word))
+    if rep["early_total"] and not rep["early"]:
+        v.add("C05:join:returned-before-thread-finished", "%d waits on an exit word ended while the word was not 0" % rep["early_total"])
     if rep["alive"]:
         v.add("C06:thread:not-exited", "%d spawned threads still exist at the end of the scenario" % rep["alive"])
 
@@ -998,6 +1013,31 @@ def strace_checks(v, rep, specs, preds, events):
             v.add("C05:probe:crashed", "signal in the system-call log: " + e["args"][:120])
 
 
+def futex_scan(rep, events):
+    """Every FUTEX_WAIT on an exit word (join block + 4) in the log: is its timeout argument NULL?"""
+    words = {b + 4: o for o, b in rep["blocks"].items()}
+    res = dict(untimed=0, timed=0, timed_examples=[])
+    for e in events:
+        if e["name"] != "futex":
+            continue
+        a = [x.strip() for x in e["args"].split(",", 3)]
+        if len(a) < 4 or not a[1].startswith("FUTEX_WAIT"):
+            continue
+        try:
+            addr = _hex(a[0])
+        except ValueError:
+            continue
+        if addr not in words:
+            continue
+        if a[3].startswith("NULL"):
+            res["untimed"] += 1
+        else:
+            res["timed"] += 1
+            if len(res["timed_examples"]) < 2:
+                res["timed_examples"].append("futex(%s)" % e["args"][:100])
+    return res
+
+
 def maps_checks(v, rep):
     """Without strace: the mapped size must not have grown by a thread stack."""
     if not rep["maps0"] or not rep["maps1"]:
@@ -1082,7 +1122,9 @@ def eval_gated(binp, case):
     value_checks(v, rep, specs, preds)
     resource_checks(v, rep, specs, preds)
     if case.get("strace"):
-        strace_checks(v, rep, specs, preds, parse_strace(res["strace"]))
+        ev = parse_strace(res["strace"])
+        strace_checks(v, rep, specs, preds, ev)
+        info["futex_waits"] = futex_scan(rep, ev)
     maps_checks(v, rep)
     info["outcome"] = "/".join("%s:%s:%s->%s,block@%s%s" % (specs[i][0], "p" if specs[i][1] else "r", specs[i][2], preds[i]["result"],
                                                           GATE[preds[i]["block_free_by"]].split("_")[0].lower(),
@@ -1107,7 +1149,9 @@ def eval_free(binp, case):
     value_checks(v, rep, specs, None)
     resource_checks(v, rep, specs, None, ungated=True)
     if case.get("strace"):
-        strace_checks(v, rep, specs, None, parse_strace(res["strace"]))
+        ev = parse_strace(res["strace"])
+        strace_checks(v, rep, specs, None, ev)
+        info["futex_waits"] = futex_scan(rep, ev)
     maps_checks(v, rep)
     return v, info, rep
 
@@ -1133,7 +1177,7 @@ def eval_hist(binp, case):
     reps = case["reps"]
     log = case.get("log", False)
     argv = ["hist", "3000", str(reps), "1" if log else "0", spec_str(specs)]
-    res = run_probe(binp, argv, strace=False, timeout=60)
+    res = run_probe(binp, argv, strace=bool(case.get("strace")) and log, timeout=60)
     rep = parse_report(res["out"])
     v = V()
     info = dict(argv=argv, outcome="hist")
@@ -1152,6 +1196,11 @@ def eval_hist(binp, case):
         value_checks(v, rep, all_specs, None)
         resource_checks(v, rep, all_specs, None, ungated=True)
         maps_checks(v, rep)
+        if case.get("strace"):
+            ev = parse_strace(res["strace"])
+            strace_checks(v, rep, all_specs, None, ev)
+            info["futex_waits"] = futex_scan(rep, ev)
+            info["outcome"] = "hist:kernel-timed-join"
     # fingerprint analysis: documented leak = closure box of each panicked thread
     leak_specs = case.get("closure_sizes")  # {type: (size, align)} learned from logged runs
     f16 = any((ty in HEAP_TYPES) and not p and op in ("d", "e", "l", "x") for ty, p, op in specs)
@@ -1312,6 +1361,111 @@ def eval_race(binp, case):
     return v2, info, whole
 
 
+def run_sched(binp, specs, order, sched, strace=False, inject=None, nofutex=False, timeout_ms=4000):
+    argv = ["gated", str(timeout_ms), "0", order + ("n" if nofutex else ""), spec_str(specs), sched_string(sched)]
+    res = run_probe(binp, argv, strace=strace, inject=inject, timeout=30)
+    return argv, res, parse_report(res["out"])
+
+
+def eval_tmo(binp, case):
+    """Only run when the fault-free logs show a wait on an exit word WITH a timeout: then ETIMEDOUT is a legal
+    kernel answer for it.  The model trace `trace` has the handle owner go to sleep on the exit word (kind b)
+    while the thread is parked at a gate; that wait is answered ETIMEDOUT by strace injection and the thread stays
+    parked until after the injected return.
+      A  legal order: the handle owner must wait again; arriving at the gate after the wait with the exit word
+         still 1 means the wait's return was taken for the thread's exit;
+      B  (only if A shows that) the handle owner's remaining steps are scheduled first - what join/drop then do
+         to a thread that is still running, judged by the usual oracles."""
+    specs = [tuple(s_) for s_ in case["specs"]]
+    trace = [tuple(x) for x in case["trace"]]
+    v = V()
+    info = dict(argv=None, outcome="futex-timeout", inject=None)
+    # fault-free run, controller without futex calls of its own: position of the timed exit-word wait
+    argv, res, rep = run_sched(binp, specs, "f", trace, strace=True, nofutex=True)
+    info["argv"] = argv
+    if crash_check(v, res, rep, specs):
+        return v, info, rep
+    ev = parse_strace(res["strace"])
+    words = {b + 4 for b in rep["blocks"].values()}
+    k = 0
+    target = None
+    for e in ev:
+        if e["name"] != "futex":
+            continue
+        k += 1
+        a = [x.strip() for x in e["args"].split(",", 3)]
+        try:
+            addr = _hex(a[0])
+        except ValueError:
+            continue
+        if target is None and addr in words and len(a) > 3 and a[1].startswith("FUTEX_WAIT") and not a[3].startswith("NULL") and e["pid"] == rep["main_tid"]:
+            target = k
+    if target is None:
+        info["outcome"] = "futex-timeout:no-timed-wait-on-this-trace"
+        return v, info, rep
+    inject = "futex:error=ETIMEDOUT:when=%d" % target
+    info["inject"] = inject
+    argv, res, rep = run_sched(binp, specs, "f", trace, inject=inject, nofutex=True)
+    info["argv"] = argv
+    ev = parse_strace(res["strace"])
+    inj = [e for e in ev if e["ret"] and "INJECTED" in e["ret"]]
+    if crash_check(v, res, rep, specs):
+        keep_evidence(case["name"], res)
+        return v, info, rep
+    if not inj or inj[0]["pid"] != rep["main_tid"] or _hex(inj[0]["args"].split(",")[0]) not in {b + 4 for b in rep["blocks"].values()}:
+        v.add("MACHINERY:injection-missed", "%s did not hit the handle owner's wait on the exit word" % inject)
+        return v, info, rep
+    cfg = Cfg([(p_, op) for _, p_, op in specs], "f")
+    st = cfg.init()
+    for lab in trace:
+        st = [n for l, n, _ in successors(cfg, st, True) if l == lab][0]
+    preds = predict(cfg, st)
+    value_checks(v, rep, specs, preds)
+    resource_checks(v, rep, specs, preds)
+    strace_checks(v, rep, specs, preds, ev)
+    if not rep["early"]:
+        info["outcome"] = "futex-timeout:waited-again"
+        return v, info, rep
+    info["outcome"] = "futex-timeout:taken-for-thread-exit"
+    # B: let the handle owner run on while the thread is still parked
+    bi = next(i for i, (_o, _g, kk) in enumerate(trace) if kk == "b")
+    h_rest = [(o, g, "n") for (o, g, kk) in trace[bi + 1:] if g < 30]
+    t_rest = [(o, g, kk) for (o, g, kk) in trace[bi + 1:] if g >= 30]
+    sched_b = trace[:bi + 1] + h_rest + t_rest
+    argv, res, rep = run_sched(binp, specs, "f", sched_b, inject=inject, nofutex=True)
+    info["argv_b"] = argv
+    evb = parse_strace(res["strace"])
+    vb = V()
+    if rep["stuck"] and rep["spawn"]:
+        # the thread, working on freed memory, left the scheduled path (e.g. its CAS read the poison): the
+        # damage is in the partial report the probe's watchdog printed
+        value_checks(vb, rep, specs, None)
+        resource_checks(vb, rep, specs, None, ungated=True)
+        vb = V([(k_, d_) for k_, d_ in vb if k_ in ("C05:join:none-without-panic", "C05:join:some-after-panic", "C05:join:wrong-value",
+                                                      "C05:join:returned-before-thread-finished", "C05:join:effect-not-visible")
+                or "written-after-free" in k_ or "freed-twice" in k_])
+    elif not crash_check(vb, res, rep, specs):
+        value_checks(vb, rep, specs, None)
+        resource_checks(vb, rep, specs, None, ungated=True)
+        strace_checks(vb, rep, specs, None, evb)
+    for k_, d in vb:
+        v.add(k_, "[handle owner scheduled on after the injected ETIMEDOUT, thread still parked] " + d)
+    keep_evidence(case["name"], res)
+    return v, info, rep
+
+
+def enumerate_tmo(model_one, tier):
+    """every single-thread model trace in which the handle owner sleeps on the exit word before the thread has exited"""
+    cases = []
+    for (p, op), traces in model_one.items():
+        for ti, (tr, _fin) in enumerate(traces):
+            if not any(k == "b" for _o, _g, k in tr):
+                continue
+            for ty in (("u64", "box") if tier == "thorough" else ("box",)):
+                cases.append(dict(kind="tmo", specs=[(ty, p, op)], trace=tr, name="tmo/%s/%s/t%d" % (proto_name(p, op), ty, ti)))
+    return cases
+
+
 # (handle-side gate, thread-side gate, gate at which the handle owner first waits for the thread to be parked, outcome, op):
 # the steps that follow the two gates touch the same shared word
 RACE_PAIRS = [
@@ -1337,7 +1491,7 @@ def enumerate_race(tier):
     return cases
 
 
-EVAL = dict(gated=eval_gated, free=eval_free, hist=eval_hist, fault=eval_fault, race=eval_race)
+EVAL = dict(gated=eval_gated, free=eval_free, hist=eval_hist, fault=eval_fault, race=eval_race, tmo=eval_tmo)
 
 
 _RETRIES = [0]
@@ -1482,6 +1636,9 @@ def enumerate_hist(tier):
     words = [[a] for a in al] + [[a, b] for a in al for b in al] + [[a, b, c] for a in alpha for b in alpha for c in alpha]
     for w in words:
         cases.append(dict(kind="hist", specs=w, reps=1, log=True, name="hist/word/" + spec_str(w)))
+    # "the thread finishes during the join", timed by the kernel clock: the closure sleeps 300 ms, join is called at once
+    for sp in (("u64", False, "s"), ("box", False, "s"), ("u64", True, "s")):
+        cases.append(dict(kind="hist", specs=[sp], reps=1, log=True, strace=True, name="hist/sleep300/" + spec_str([sp])))
     # heap-owning results dropped unjoined (F16 candidate): every drop timing
     for ty in ("box", "str"):
         for op in ("e", "l", "x"):
@@ -1640,12 +1797,26 @@ def collect(tier, env=None, use_cache=True):
         futs = [ex.submit(run_case, binp, c) for c in lcases]
         for f in futs:
             results.append(f.result())
+        # waits on the exit word seen in the fault-free logs: timed or not?
+        fw = dict(untimed=0, timed=0, examples=[])
+        for _c, _v, i_ in results:
+            w_ = i_.get("futex_waits")
+            if w_:
+                fw["untimed"] += w_["untimed"]
+                fw["timed"] += w_["timed"]
+                fw["examples"] = (fw["examples"] + w_["timed_examples"])[:3]
+        if fw["timed"]:
+            tcases = enumerate_tmo(model["one"], tier)
+            fw["injection_runs"] = len(tcases)
+            futs = [ex.submit(run_case, binp, c) for c in tcases]
+            for f in futs:
+                results.append(f.result())
     cleanup_tmp()
     out = dict(stamp=stamp, when=time.time(), tier=tier, model=dict(states=mc["states"], transitions=mc["transitions"], configs=mc["configs"],
                errors=[(n, [list(t) for t in th], o, [list(l) for l in tr]) for n, th, o, tr in mc["errors"]], mutants=mc["mutants"],
                one={proto_name(*k): len(vv) for k, vv in model["one"].items()}, two=[(proto_name(*a), proto_name(*b), o, n) for a, b, o, n in model["two"]],
                three=model.get("three", 0), linearize_failures=len(model.get("linearize_failures", []))),
-               notes=notes, results=[dict(case=c, violations=v, info=i) for c, v, i in results], wall=round(time.time() - t_start, 2))
+               futex_waits=fw, notes=notes, results=[dict(case=c, violations=v, info=i) for c, v, i in results], wall=round(time.time() - t_start, 2))
     os.makedirs(WORK, exist_ok=True)
     with open(cache, "w") as f:
         json.dump(out, f)
@@ -1722,6 +1893,18 @@ def make_report(prop, tier, data):
             rep["samples"].append(dict(name=case.get("name"), probe_argv=info.get("argv"), strace_inject=case.get("inject"),
                                        model_prediction=info.get("outcome"), conformant=info.get("conformant"),
                                        violations=[key for key, _ in vs]))
+    fw = data.get("futex_waits", {})
+    if fw.get("timed"):
+        rep["outcomes"]["futex-wait:timed"] = fw["timed"]
+        rep["notes"].append("%d of %d observed waits on an exit word carry a timeout (e.g. %s): ETIMEDOUT is a legal answer, %d injection runs made" %
+                            (fw["timed"], fw["timed"] + fw.get("untimed", 0), "; ".join(fw.get("examples", [])), fw.get("injection_runs", 0)))
+    elif fw.get("untimed"):
+        # vacuous on purpose: with no timeout argument the kernel cannot answer ETIMEDOUT
+        rep["outcomes"]["futex-wait:untimed"] = fw["untimed"]
+        rep["notes"].append("all %d observed waits on an exit word pass timeout=NULL: ETIMEDOUT is not a legal kernel answer, the timeout-injection sub-scenario is vacuous (not run)" % fw["untimed"])
+    else:
+        rep["notes"].append("machinery-failure")
+        rep["notes"].append("no wait on an exit word was observed in any fault-free system-call log")
     rep["violations"] = list(viol.values())
     m = data["model"]
     rep["bounds"] = dict(tier=tier, model_configs=m["configs"], one_thread_traces=m["one"], two_thread_pairs=len(m["two"]),
@@ -1738,7 +1921,10 @@ def make_report(prop, tier, data):
                    "(scenario, trace/word, fault) tuple. PLUS A SAMPLED PHASE (not enumerated, not counted in evaluations/exhaustive): gate-aligned race sweeps - "
                    "for each pair (handle gate, thread gate) whose following steps touch the same shared word the two parties are parked at their gates and "
                    "released together with a skew of -64..+64 pauses, thousands of threads per pair, same per-allocation / value oracles per batch of 200; "
-                   "this samples the orderings INSIDE the ungated windows, which schedule replay cannot order." % (", 3" if tier == "thorough" else "", "all trace pairs (canonical linearisations)" if tier == "thorough" else "a sample",
+                   "this samples the orderings INSIDE the ungated windows, which schedule replay cannot order. Every gated/ungated run also checks the "
+                   "post-condition of the exit-word wait at the gate after it (word == 0), and every FUTEX_WAIT on an exit word in the fault-free logs is "
+                   "inspected: only if one carries a timeout, each trace in which the handle owner sleeps before the thread's exit is re-run with that wait "
+                   "answered ETIMEDOUT (strace injection) while the thread stays parked." % (", 3" if tier == "thorough" else "", "all trace pairs (canonical linearisations)" if tier == "thorough" else "a sample",
                                                             64 if tier == "thorough" else 8, 2000 if tier == "thorough" else 200))
     if tier != "thorough":
         rep["exhaustive"] = False
